@@ -14,6 +14,7 @@ import json
 import os
 import sys
 import time
+import subprocess
 import traceback
 
 sys.path.insert(0, os.path.dirname(os.path.abspath(__file__)))
@@ -48,8 +49,20 @@ def main() -> int:
     ctx["escalate"] = broken_lean
 
     rep = core.Report()
+    run_crashed = None
     if st.model_ok:
-        rep = mod.run(ctx)
+        try:
+            rep = mod.run(ctx)
+        except (KeyboardInterrupt, SystemExit, MemoryError, OSError, subprocess.SubprocessError):
+            raise          # infrastructure: exit 2
+        except Exception:
+            # The harness itself fell over while driving the code under test (an output it cannot serialise, a variable the
+            # code no longer reports, …).  That is a broken correspondence, not yet a violation: the widened search runs; a
+            # VIOLATION is printed only if it finds a concrete failing input, or if a proof obligation / translation / anchor
+            # of this property is broken anyway (then `no-failing-input-found`); otherwise this is an internal error (exit 2).
+            run_crashed = traceback.format_exc()
+            rep = core.Report()
+            rep.notes.append("correspondence run crashed: " + run_crashed[-1500:])
     else:
         rep.notes.append("Lean model did not build: correspondence run impossible, implementation-only oracle used")
         if hasattr(mod, "oracle_only"):
@@ -76,7 +89,7 @@ def main() -> int:
                                         "how_to_replay": f"./check {prop} --replay <this file>"})
         out_lines.append(f"VIOLATION property={prop} replay={path}")
         exit_code = 1
-    elif broken_lean or rep.corr_mismatches:
+    elif broken_lean or rep.corr_mismatches or run_crashed:
         # nothing failed yet on the cases of this run: widen the search on the real code
         found = None
         if hasattr(mod, "search"):
@@ -88,6 +101,10 @@ def main() -> int:
             path = core.write_replay(prop, {"property": prop, "kind": "failing-input", "failure": found,
                                             "seed": seed, "tier": args.tier})
             out_lines.append(f"VIOLATION property={prop} replay={path}")
+        elif run_crashed and not broken_lean and not rep.corr_mismatches:
+            # a harness crash with every obligation intact and no failing input: an internal error, never an alarm
+            sys.stderr.write(run_crashed)
+            sys.exit(2)
         else:
             what = {
                 "property": prop,
@@ -103,6 +120,7 @@ def main() -> int:
                 "proof_log_tail": st.proofs_log[-3000:],
                 "model_log_tail": st.model_log[-2000:],
                 "correspondence_mismatches": rep.corr_mismatches[:5],
+                "correspondence_run_crashed": (run_crashed or "")[-1500:],
                 "note": "no concrete failing input was found; the property is no longer shown to hold",
             }
             path = core.write_replay(prop, what)
